@@ -91,13 +91,31 @@ func rulesRangeCode(p *Prog, r *Report) {
 	{
 		var probs []string
 		qzp := &quantizer{p: p, elemVar: map[ssa.Value]string{}, idxProv: true, stop: map[string]bool{"simplifyLicense": true, "LicenseRanges": true}}
+		// the search may be split: getLicenseRange → a search helper that is handed the probe and the table →
+		// a constructor that records the position. Helpers are walked with their parameters bound to the
+		// descriptions of the arguments, so positions and probe are described in getLicenseRange's terms.
 		var lr string
-		for _, b := range glr.Blocks {
-			for _, in := range b.Instrs {
-				if c, ok := in.(*ssa.Call); ok && c.Call.StaticCallee() != nil && c.Call.StaticCallee().Name() == "LicenseRanges" {
-					lr = qzp.prov(c, 0)
+		{
+			seenFn := map[*ssa.Function]bool{}
+			var find func(fn *ssa.Function, d int)
+			find = func(fn *ssa.Function, d int) {
+				if seenFn[fn] || d > 3 {
+					return
+				}
+				seenFn[fn] = true
+				for _, b := range fn.Blocks {
+					for _, in := range b.Instrs {
+						if c, ok := in.(*ssa.Call); ok && c.Call.StaticCallee() != nil {
+							if c.Call.StaticCallee().Name() == "LicenseRanges" {
+								lr = qzp.prov(c, 0)
+							} else if p.InModule(c.Call.StaticCallee()) && c.Call.StaticCallee() != simp {
+								find(c.Call.StaticCallee(), d+1)
+							}
+						}
+					}
 				}
 			}
+			find(glr, 0)
 		}
 		probeDesc := "strings.TrimSuffix(param:" + glr.Params[0].Name() + ", \"-or-later\")" // the strip written in place
 		if simp != nil {
@@ -114,35 +132,75 @@ func rulesRangeCode(p *Prog, r *Report) {
 		}
 		seen := map[string]bool{}
 		var matchBlock *ssa.BasicBlock
+		matchFn := glr
 		byLoopTest := false
-		for _, b := range glr.Blocks {
-			for _, in := range b.Instrs {
-				mu, ok := in.(*ssa.MapUpdate)
-				if !ok {
-					continue
-				}
-				kc, ok := mu.Key.(*ssa.Const)
-				if !ok || kc.Value == nil {
-					probs = append(probs, "non-constant location key")
-					continue
-				}
-				k := kc.Value.ExactString()
-				seen[k] = true
-				matchBlock = b
-				got := qzp.prov(mu.Value, 0)
-				okV := false
-				for _, w := range want[k] {
-					if got == w {
-						okV = true
+		searchFns := []*ssa.Function{glr}
+		{
+			visited := map[*ssa.Function]bool{glr: true}
+			var visit func(fn *ssa.Function, siteFn *ssa.Function, siteBlk *ssa.BasicBlock, d int)
+			visit = func(fn *ssa.Function, siteFn *ssa.Function, siteBlk *ssa.BasicBlock, d int) {
+				for _, b := range fn.Blocks {
+					for _, in := range b.Instrs {
+						switch t := in.(type) {
+						case *ssa.MapUpdate:
+							kc, ok := t.Key.(*ssa.Const)
+							if !ok || kc.Value == nil {
+								probs = append(probs, "non-constant location key")
+								continue
+							}
+							k := kc.Value.ExactString()
+							seen[k] = true
+							if siteBlk != nil {
+								matchBlock, matchFn = siteBlk, siteFn // recorded by a loop-free constructor called here
+							} else {
+								matchBlock, matchFn = b, fn
+							}
+							got := qzp.prov(t.Value, 0)
+							okV := false
+							for _, w := range want[k] {
+								if got == w {
+									okV = true
+								}
+							}
+							if !okV {
+								probs = append(probs, fmt.Sprintf("location[%s] is set to %s, not to the position of the matching entry at that level of the table (%s)", names[k], shortDesc(got), shortDesc(strings.Join(want[k], " or "))))
+							}
+							if k == lk.index && strings.HasPrefix(got, "idx(") {
+								byLoopTest = true
+							}
+						case *ssa.Call:
+							callee := t.Call.StaticCallee()
+							if callee == nil || !p.InModule(callee) || callee == simp || visited[callee] || d >= 3 || len(callee.Blocks) == 0 {
+								continue
+							}
+							visited[callee] = true
+							descs := make([]string, len(callee.Params))
+							for i := range callee.Params {
+								if i < len(t.Call.Args) {
+									descs[i] = qzp.prov(t.Call.Args[i], 0)
+								}
+							}
+							for i, prm := range callee.Params {
+								if i < len(t.Call.Args) {
+									qzp.elemVar[prm] = descs[i]
+								}
+							}
+							if hasLoop(callee) {
+								searchFns = append(searchFns, callee)
+								visit(callee, nil, nil, d+1)
+							} else if siteBlk != nil {
+								visit(callee, siteFn, siteBlk, d+1)
+							} else {
+								visit(callee, fn, b, d+1)
+							}
+							for _, prm := range callee.Params {
+								delete(qzp.elemVar, prm)
+							}
+						}
 					}
 				}
-				if !okV {
-					probs = append(probs, fmt.Sprintf("location[%s] is set to %s, not to the position of the matching entry at that level of the table (%s)", names[k], shortDesc(got), shortDesc(strings.Join(want[k], " or "))))
-				}
-				if k == lk.index && strings.HasPrefix(got, "idx(") {
-					byLoopTest = true
-				}
 			}
+			visit(glr, nil, nil, 0)
 		}
 		for k, n := range names {
 			if !seen[k] {
@@ -152,7 +210,7 @@ func rulesRangeCode(p *Prog, r *Report) {
 		if matchBlock != nil && byLoopTest {
 			// loop form: the record is made under "entry == simplified id"
 			okCond := false
-			for _, l := range pathLiteralsWith(qzp, glr, matchBlock) {
+			for _, l := range pathLiteralsWith(qzp, matchFn, matchBlock) {
 				if l.Op == "atom" && (l.Atom == canonAtom("(elem(elem(elem("+lr+"))) == "+probeDesc+")")) {
 					okCond = true
 				}
@@ -167,11 +225,19 @@ func rulesRangeCode(p *Prog, r *Report) {
 			}
 		}
 		// exhaustiveness of every loop involved: in getLicenseRange and in the helpers whose results it uses
-		fnsToCheck := []*ssa.Function{glr}
+		fnsToCheck := searchFns
 		for _, b := range glr.Blocks {
 			for _, in := range b.Instrs {
 				if c, ok := in.(*ssa.Call); ok && c.Call.StaticCallee() != nil && p.InModule(c.Call.StaticCallee()) && c.Call.StaticCallee() != simp && hasLoop(c.Call.StaticCallee()) {
-					fnsToCheck = append(fnsToCheck, c.Call.StaticCallee())
+					dup := false
+					for _, x := range fnsToCheck {
+						if x == c.Call.StaticCallee() {
+							dup = true
+						}
+					}
+					if !dup {
+						fnsToCheck = append(fnsToCheck, c.Call.StaticCallee())
+					}
 				}
 			}
 		}
@@ -185,7 +251,7 @@ func rulesRangeCode(p *Prog, r *Report) {
 			sort.Slice(hdrs, func(i, j int) bool { return hdrs[i].Dominates(hdrs[j]) })
 			// the success block: the record (getLicenseRange) or the return of found positions (a helper)
 			var succ *ssa.BasicBlock
-			if fn == glr {
+			if fn == matchFn {
 				succ = matchBlock
 			} else {
 				for _, b := range fn.Blocks {
